@@ -156,8 +156,12 @@ def check_property(spec: PropertySpec, tier="quick", seed=0, src_root="/repo/src
         sat_info = None
         for o in bad:
             if o.expect != "unsat":
-                # a vacuity guard that became provable: contradictory precondition / invariant
-                faults.append(f"vacuity guard {o.name} is provable (contradictory hypotheses)")
+                # a vacuity guard that became provable: contradictory precondition / invariant.  A single dead
+                # return path is legitimate; a function all of whose paths are dead (or a dead precondition) is not.
+                rep = next(r for r in reports if r.target == target)
+                canaries = [x for x in rep.obligations if x.kind == "canary"]
+                if o.kind != "canary" or all(not x.ok for x in canaries):
+                    faults.append(f"vacuity guard {o.name} is provable (contradictory hypotheses)")
                 continue
             txt = prove.vc_text(E, o, defs="ground", fuel=3)
             res = getattr(o, "refute", None)
